@@ -339,7 +339,7 @@ def world(ctx, rng_seed, m, ps, origin, kshape, shared=None):
         V = gen_aa.delaunay_vertices(r, lo, hi, int(r.integers(5, 10)), spread=1.1)
         mesh = aa.Mesh2DDelaunay(values=o + V)
         mp = aa.Mapper(mapper_grids=aa.MapperGrids(mask=mask, source_plane_data_grid=src, source_plane_mesh_grid=mesh), over_sampler=osamp, regularization=None)
-        ob.inv("MapperDelaunay", "delaunay.mapping_matrix", np.round(_np(mp.mapping_matrix).astype(float), 8))
+        ob.inv("MapperDelaunay", "delaunay.mapping_matrix", _np(mp.mapping_matrix).astype(float))
         psw = mp.pix_sub_weights
         ob.rowsets("MapperDelaunay", "delaunay.tables", psw.mappings, psw.sizes, np.round(_np(psw.weights), 8))
     run("MapperDelaunay", dela)
@@ -389,7 +389,9 @@ def compare(ctx, a, b, d, scale, W):
             if va.dtype.kind in "iub":
                 ok = np.array_equal(va, vb)
             else:
-                ok = bool(np.all(np.abs(va.astype(float) - vb.astype(float)) <= 1e-9 * np.maximum(1.0, np.abs(va.astype(float)))))
+                # interpolation weights: coordinate rounding (u * |o + d|) is amplified by edge / altitude of thin triangles -> 2e-8
+                rt = 2e-8 if name.startswith("delaunay.") else 1e-9
+                ok = bool(np.all(np.abs(va.astype(float) - vb.astype(float)) <= rt * np.maximum(1.0, np.abs(va.astype(float)))))
             ctx.check(ok, mon, result=name, kind="invariant", at_o=va, at_o_plus_d=vb, **W)
 
 
